@@ -1,0 +1,90 @@
+//go:build verif
+
+package proxy
+
+import (
+	"net"
+
+	"go.minekube.com/gate/pkg/edition/java/netmc"
+	"go.minekube.com/gate/pkg/edition/java/profile"
+	"go.minekube.com/gate/pkg/edition/java/proto/packet"
+)
+
+// Verification hooks for the player registry (properties C11 and C12).
+// Add-only, compiled only with -tags verif; no existing behaviour is changed.
+
+// VerifC11Player wraps an unexported connectedPlayer built by VerifC11NewPlayer.
+type VerifC11Player struct{ p *connectedPlayer }
+
+// VerifC11NewPlayer builds a connectedPlayer over conn the way authSessionHandler.Activated
+// does (same sessionHandlerDeps as Proxy.HandleConn). If installTeardownHandler is set, the
+// connection's active session handler becomes the real initialConnectSessionHandler (as in
+// completeLoginProtocolPhaseAndInitialize), whose Disconnected() calls player.teardown(), so
+// closing/disconnecting the connection tears the player down like a real session.
+func VerifC11NewPlayer(px *Proxy, conn netmc.MinecraftConn, prof *profile.GameProfile, vhost net.Addr, onlineMode, installTeardownHandler bool) *VerifC11Player {
+	deps := &sessionHandlerDeps{
+		proxy:          px,
+		registrar:      px,
+		configProvider: px,
+		eventMgr:       px.event,
+		authenticator:  px.authenticator,
+		loginsQuota:    px.loginsQuota,
+	}
+	pl := newConnectedPlayer(conn, prof, vhost, packet.LoginHandshakeIntent, onlineMode, nil, deps)
+	if installTeardownHandler {
+		conn.SetActiveSessionHandler(conn.State(), newInitialConnectSessionHandler(pl))
+	}
+	return &VerifC11Player{p: pl}
+}
+
+// Player returns the public Player value (identity-comparable with Proxy.Players() entries).
+func (v *VerifC11Player) Player() Player { return v.p }
+
+// CanRegister calls Proxy.canRegisterConnection through the player's registrar.
+func (v *VerifC11Player) CanRegister() bool { return v.p.registrar.canRegisterConnection(v.p) }
+
+// Register calls Proxy.registerConnection through the player's registrar.
+func (v *VerifC11Player) Register() bool { return v.p.registrar.registerConnection(v.p) }
+
+// Unregister calls Proxy.unregisterConnection through the player's registrar.
+func (v *VerifC11Player) Unregister() bool { return v.p.registrar.unregisterConnection(v.p) }
+
+// Teardown calls connectedPlayer.teardown.
+func (v *VerifC11Player) Teardown() { v.p.teardown() }
+
+// VerifC11RegistryLockFree reports whether the player-registry lock (Proxy.muP) can be
+// taken right now. It takes and immediately releases the lock.
+func VerifC11RegistryLockFree(px *Proxy) bool {
+	if px.muP.TryLock() {
+		px.muP.Unlock()
+		return true
+	}
+	return false
+}
+
+// VerifC11ReleaseLeakedRegistryLock unlocks Proxy.muP. Only to be called by a monitor after
+// it has established that the write lock was left held by a function that already returned,
+// so that the goroutines parked on it can be collected.
+func VerifC11ReleaseLeakedRegistryLock(px *Proxy) { px.muP.Unlock() }
+
+// VerifC11ServerPlayersAdd calls players.add on the server's player list.
+func VerifC11ServerPlayersAdd(rs RegisteredServer, pls ...*VerifC11Player) {
+	s, ok := rs.(*registeredServer)
+	if !ok {
+		return
+	}
+	for _, v := range pls {
+		s.players.add(v.p)
+	}
+}
+
+// VerifC11ServerPlayersRemove calls players.remove on the server's player list.
+func VerifC11ServerPlayersRemove(rs RegisteredServer, pls ...*VerifC11Player) {
+	s, ok := rs.(*registeredServer)
+	if !ok {
+		return
+	}
+	for _, v := range pls {
+		s.players.remove(v.p)
+	}
+}
